@@ -169,6 +169,9 @@ func (fs *FileStorage) Close() error {
 }
 
 func (fs *FileStorage) IgnoreMessages(messages []string, useOffset bool) error {
+	// (GetMessages reads these maps from the polling goroutine)
+	fs.mu.Lock()
+	defer fs.mu.Unlock()
 	for _, msg := range messages {
 		if useOffset {
 			offset, err := strconv.ParseUint(msg, 10, 64)
@@ -187,6 +190,8 @@ func (fs *FileStorage) IgnoreMessages(messages []string, useOffset bool) error {
 }
 
 func (fs *FileStorage) UnignoreMessages() {
+	fs.mu.Lock()
+	defer fs.mu.Unlock()
 	fs.idIgnoreList = map[string]struct{}{}
 	fs.offsetIgnoreList = map[uint64]struct{}{}
 }
